@@ -701,6 +701,7 @@ type verifC28Acct struct {
 	prog    []byte
 	args    [][]byte
 	useL    bool // delegated msig goes into LMsig (else Msig)
+	copy    int  // 0 = honest; 1-5: after signing, genuine subsignatures are COPIED / swapped between members' slots (see mkMsig)
 }
 
 func (g *verifC28Gen) program(tpl string) []byte {
@@ -840,6 +841,21 @@ func (g *verifC28Gen) randMsigAcct() verifC28Acct {
 	want = max(0, min(want, n))
 	perm := verifC28Perm(r, n)
 	a.signers = perm[:want]
+	// one member's genuine signature placed into other members' slots: an otherwise honest multisig (version 1, threshold
+	// 2..n, fewer real signers than the threshold or exactly enough) whose slots are then filled by copying
+	if n >= 2 && n <= 8 && r.Chance(14) {
+		a.copy = 1 + r.Intn(5)
+		a.ver = 1
+		a.thr = uint8(2 + r.Intn(n-1))
+		if r.Chance(35) { // an address that lists a key twice (copies into the twin slot are genuine, as coded)
+			a.keys[r.Intn(n)] = a.keys[r.Intn(n)]
+		}
+		want = 1 + r.Intn(int(a.thr))
+		if r.Chance(50) {
+			want = 1
+		}
+		a.signers = verifC28Perm(r, n)[:want]
+	}
 	return a
 }
 
@@ -896,6 +912,51 @@ func (g *verifC28Gen) mkMsig(a *verifC28Acct, h crypto.Hashable) crypto.Multisig
 	}
 	for _, pos := range a.signers {
 		m.Subsigs[pos].Sig = g.w.sign(a.keys[pos], h)
+	}
+	if a.copy != 0 && len(a.signers) > 0 {
+		g.label = append(g.label, fmt.Sprintf("copysig%d", a.copy))
+		r, n := g.r, len(a.keys)
+		src := a.signers[r.Intn(len(a.signers))]
+		need := int(a.thr) - len(a.signers) // copies needed to reach the threshold
+		switch a.copy {
+		case 1: // into just enough (or a few more) other slots, wherever they are
+			c := max(1, need+r.Intn(2))
+			for _, pos := range verifC28Perm(r, n) {
+				if c > 0 && pos != src && m.Subsigs[pos].Sig.Blank() {
+					m.Subsigs[pos].Sig = m.Subsigs[src].Sig
+					c--
+				}
+			}
+		case 2: // two members' genuine signatures swapped (or, with one signer, moved to another member's slot)
+			dst := (src + 1 + r.Intn(n-1)) % n
+			m.Subsigs[src].Sig, m.Subsigs[dst].Sig = m.Subsigs[dst].Sig, m.Subsigs[src].Sig
+		case 3: // every slot carries the one signature
+			for pos := range m.Subsigs {
+				m.Subsigs[pos].Sig = m.Subsigs[src].Sig
+			}
+		case 4: // the copies sit AFTER the genuine one (the first signer's signature, into later blank slots)
+			for _, p := range a.signers {
+				src = min(src, p)
+			}
+			c := max(1, need)
+			for pos := src + 1; pos < n && c > 0; pos++ {
+				if m.Subsigs[pos].Sig.Blank() {
+					m.Subsigs[pos].Sig = m.Subsigs[src].Sig
+					c--
+				}
+			}
+		default: // the copies sit BEFORE the genuine one
+			for _, p := range a.signers {
+				src = max(src, p)
+			}
+			c := max(1, need)
+			for pos := 0; pos < src && c > 0; pos++ {
+				if m.Subsigs[pos].Sig.Blank() {
+					m.Subsigs[pos].Sig = m.Subsigs[src].Sig
+					c--
+				}
+			}
+		}
 	}
 	return m
 }
